@@ -724,12 +724,13 @@ func (r *runner) hookImages(o Op, bs []base, preDisk diskDesc) {
 					if mk>>uint(i)&1 == 0 {
 						continue
 					}
-					fr := r.real.files[num]
-					if fr == nil {
+					// the bytes of the unlinked log itself: a hard link taken when the log was first
+					// seen keeps its inode readable
+					content, lerr := os.ReadFile(filepath.Join(r.real.db+"-links", logName(num)))
+					if lerr != nil {
 						ok = false
 						break
 					}
-					content := append(append([]byte(nil), fr.bytes[:fr.ends[len(fr.ends)-1]]...), fr.trailer...)
 					if err := os.WriteFile(filepath.Join(walDirOf(dst), logName(num)), content, 0o644); err != nil {
 						ok = false
 					}
